@@ -382,8 +382,11 @@ INT_POINTS = {
 def unit_rep(v):
     """projective representative: divided by its entry of largest modulus."""
     v = np.asarray(v, dtype=float)
-    i = np.argmax(np.abs(v), axis=-1)
-    return v / np.take_along_axis(v, i[..., None], axis=-1)
+    a = np.abs(v)
+    # first entry within 10% of the largest modulus (robust to exact ties,
+    # which integer data produces and rounding then breaks either way)
+    i = np.argmax(a >= 0.9 * np.max(a, axis=-1, keepdims=True), axis=-1)
+    return v / np.take_along_axis(v, np.asarray(i)[..., None], axis=-1)
 
 
 def int_data_packagings(v):
@@ -439,6 +442,18 @@ def wl_packaging_integer_data(run, rng, idx):
                      {k: (lambda w=w: Isometry.elliptic(dd, w)) for k, w in pk.items()},
                      post=lambda T: (T.inv(), (T @ Point(np.full(dd, 0.1), model="klein")).coords("klein")),
                      cls=(dd,), require_float=False)
+    # integer-typed spacelike normals of hyperplanes (stored un-normalised:
+    # seeded change C12-r2-2) -- reflection and wall recovered from it
+    from geometry_tools.hyperbolic import Hyperplane
+    while True:
+        nv = rng.integers(-4, 5, size=dd + 1)
+        if -nv[0] * nv[0] + int(np.sum(nv[1:] * nv[1:])) >= max(2, 0.2 * int(np.sum(nv * nv))):
+            break
+    compare_variants(run, "Hyperplane(int-normal).reflection_across",
+                     {k: (lambda u=u: Hyperplane(u).reflection_across())
+                      for k, u in int_data_packagings(nv.tolist()).items()},
+                     post=lambda R: (R @ R, unit_rep(Hyperplane.from_reflection(R).proj_data[..., 0, :])),
+                     cls=(dd,), require_float=False)
     pp = projective.Point
     w = [int(x) for x in rng.integers(1, 6, size=n)]
     compare_variants(run, "projective.Point(integer coordinates)",
@@ -492,6 +507,50 @@ def wl_packaging_coxeter(run, rng, idx):
         compare_variants(run, "CoxeterGroup.%s" % method,
                          {k: (lambda v=v: thunk(v)) for k, v in pk.items()},
                          post=post, cls=(n,))
+    # a history on ONE group object per packaging: the cosine form first, then a
+    # Tits-Vinberg deformation of an infinite label (written as a negative
+    # number), then the geometric representation again.  The group's own Coxeter
+    # matrix and the caller's array must survive the calls (seeded change
+    # C12-r2-3: array_like aliasing the float-packaged Coxeter matrix, which
+    # bilinear_form then overwrites in place).
+    neg = [(i, j) for i in range(n) for j in range(i + 1, n) if M[i][j] < 0]
+    if neg:
+        mon = run.monitor("packaging")
+        par = {neg[0]: -3.0}
+
+        def history(v):
+            keep = np.array(v, dtype=float)
+            G = coxeter.CoxeterGroup(matrix=v)
+            own = np.array(G.coxeter_matrix, dtype=float)
+            B = G.bilinear_form()
+            tv = G.tits_vinberg_rep(par)
+            geo = G.geometric_representation()
+            after_own = np.array(G.coxeter_matrix, dtype=float)
+            after_in = np.array(v, dtype=float)
+            if not (np.array_equal(own, after_own) and np.array_equal(keep, after_in)):
+                mon.fail("packaging/coxeter-matrix-mutated",
+                         "the group's Coxeter matrix (or the caller's array) changed during "
+                         "bilinear_form / tits_vinberg_rep / geometric_representation: %r -> %r"
+                         % (own.tolist(), after_own.tolist()),
+                         {"matrix": M, "packaging": type(v).__name__})
+            return (np.asarray(B, dtype=float), np.asarray(tv["ab"], dtype=float),
+                    np.asarray(tv["a"], dtype=float), np.asarray(geo["ab"], dtype=float))
+        compare_variants(run, "CoxeterGroup.tits_vinberg_rep(history)",
+                         {k: (lambda v=v: history(v)) for k, v in pk.items()}, cls=(n,))
+        # and against the definition: s_i = I - e_i e_i^T C with C[i,j] = par
+        C = -2 * np.cos(np.pi / np.where(Mi <= 0, 0.5, Mi.astype(float)))
+        C[neg[0]] = par[neg[0]]
+        C[neg[0][::-1]] = par[neg[0]]
+        G = coxeter.CoxeterGroup(matrix=[list(map(float, r)) for r in M])
+        G.bilinear_form()
+        tv = G.tits_vinberg_rep(par)
+        for i, g in enumerate("abcdefgh"[:n]):
+            E = np.zeros((n, n))
+            E[i, i] = 1.0
+            mon.judge(float(np.max(np.abs(np.asarray(tv[g], dtype=float) - (np.eye(n) - E @ C)))),
+                      TOL, "packaging/absolute-value/CoxeterGroup.tits_vinberg_rep/float-list",
+                      "tits_vinberg_rep generator is not I - e_i e_i^T C for the Cartan matrix "
+                      "with the requested parameter", {"matrix": M, "generator": g})
     # diagram route with python ints / numpy ints / floats as labels
     if n == 3:
         labs = (M[0][1], M[1][2], M[2][0])
@@ -763,6 +822,29 @@ def wl_rescaling_ideal(run, rng, idx):
                       float(np.max(np.abs(r1[ok] - rref[ok]) / rref[ok])), 1e-5)
                 dth = np.angle(np.exp(1j * (np.asarray(th0)[ok] - np.asarray(th1)[ok])))
                 judge(name + "-circle-angles", float(np.max(np.abs(dth) * np.minimum(r0[ok], 1e3)[..., None])), 1e-5)
+    # horospheres: ideal centre and interior reference point rescaled
+    # independently (seeded change C12-r2-1: a closed formula that assumes a
+    # positive time coordinate of the reference point)
+    from geometry_tools.hyperbolic import Horosphere
+    h0 = Horosphere(Point(Q0.copy()), Point(P0.copy()))
+    h1 = Horosphere(Point((Q0 * lq).copy()), Point((P0 * lp).copy()))
+    for model in ("poincare", "halfspace"):
+        if model == "halfspace" and not rh.away_from_infinity(kq, 0.3):
+            continue
+        c0, r0 = h0.sphere_parameters(model=model)
+        c1, r1 = h1.sphere_parameters(model=model)
+        c0, r0, c1, r1 = (np.asarray(x, dtype=float) for x in (c0, r0, c1, r1))
+        if not (np.all(np.isfinite(r0)) and np.all(r0 < 50)):
+            continue
+        judge("horosphere-centre:" + model, float(np.max(np.abs(c0 - c1) / (1 + np.abs(c0)))), 1e-6)
+        judge("horosphere-radius:" + model, float(np.max(np.abs(r0 - r1) / np.abs(r0))), 1e-6)
+        if model == "poincare":
+            # reference: tangent to the unit sphere at the centre, through the
+            # reference point x:  r = |x - u|^2 / (2 (1 - x.u))
+            xp = rh.klein_to_poincare(kp)
+            rref = np.sum((xp - kq) ** 2, axis=-1) / (2 * (1 - np.sum(xp * kq, axis=-1)))
+            judge("horosphere-radius-vs-reference:" + model,
+                  float(np.max(np.abs(r1 - rref) / rref)), 1e-6)
     # coordinates of ideal points themselves
     q0, q1 = Point(Q0.copy()), Point((Q0 * lq).copy())
     for model in ("klein", "poincare"):
